@@ -74,9 +74,6 @@ class InterceptingLLUDPProxyProtocol(UDPProxyProtocol):
         message.meta.update(packet.meta)
 
         assert message is not None
-        # Check for UDP bans on inbound messages
-        if packet.incoming:
-            self._ensure_message_allowed(message)
 
         if not self.session:
             # This proxy instance isn't tied to a session yet
@@ -114,6 +111,16 @@ class InterceptingLLUDPProxyProtocol(UDPProxyProtocol):
 
         # Process any ACKs for messages we injected first
         region.circuit.collect_acks(message)
+
+        # Check for UDP bans on inbound messages. Only after the ACK bookkeeping: the packet was
+        # received and the ACKs riding on it are real even though the message won't be passed on.
+        if packet.incoming:
+            try:
+                self._ensure_message_allowed(message)
+            except PermissionError:
+                # ACKs the sender if needed and forwards the piggy-backed ACKs
+                region.circuit.drop_message(message)
+                raise
 
         if message.name == "AgentMovementComplete":
             self.session.main_region = region
